@@ -316,12 +316,13 @@ def property_theorems(prop: str) -> list[str]:
     return names
 
 
-def audit(prop: str) -> dict:
-    """`#print axioms` of every theorem of Props/<prop>.lean; returns name -> axiom list."""
-    names = property_theorems(prop)
+def audit(prop: str, extra_imports=(), extra_theorems=()) -> dict:
+    """`#print axioms` of every theorem of Props/<prop>.lean (and of the theorems of other property files this property
+    relies on, `extra_theorems`); returns name -> axiom list."""
+    names = property_theorems(prop) + list(extra_theorems)
     d = LEAN / ".audit"
     d.mkdir(exist_ok=True)
-    src = f"import NssVerif.Props.{prop}\n" + "".join(f"#print axioms {n}\n" for n in names)
+    src = f"import NssVerif.Props.{prop}\n" + "".join(f"import {m}\n" for m in extra_imports) + "".join(f"#print axioms {n}\n" for n in names)
     f = d / f"Audit{prop}.lean"
     f.write_text(src)
     p = subprocess.run(["lake", "env", "lean", str(f)], cwd=LEAN, capture_output=True, text=True)
@@ -496,7 +497,8 @@ def _replay(prop, module, data: dict) -> int:
 
 
 def _run(prop, module, ctx: Ctx, t0, ev_path: Path) -> int:
-    targets = [f"NssVerif.Props.{prop}", "nssdriver"]
+    extra_targets = list(getattr(module, "EXTRA_TARGETS", []))
+    targets = [f"NssVerif.Props.{prop}", *extra_targets, "nssdriver"]
     regen = getattr(module, "regen", None)
     br = lake_build(targets, regen)
     broken: list[str] = []  # names of theorems / correspondences that no longer check
@@ -519,7 +521,7 @@ def _run(prop, module, ctx: Ctx, t0, ev_path: Path) -> int:
         raise InfraError("forbidden tokens in Lean sources: " + "; ".join(forb[:5]))
     aud = {"names": [], "axioms": {}}
     if br.ok:
-        aud = audit(prop)
+        aud = audit(prop, extra_targets, getattr(module, "EXTRA_THEOREMS", []))
         bad = {n: a for n, a in aud["axioms"].items() if a is None or not set(a) <= ALLOWED_AXIOMS}
         if bad:
             raise InfraError(f"axiom audit failed: {bad} {aud['raw_errors']}")
